@@ -47,10 +47,10 @@ impl LoopCampaign {
     let (layout, name) = match self.source {
       SourceB::Shipped => { let n = &self.shipped[rng.below(self.shipped.len())]; (n.layout.clone(), n.name.clone()) }
       SourceB::Random => {
-        let o = LayoutOpts { weird: rng.chance(1, 5), absorbing: rng.chance(1, 3), norepeat: rng.chance(1, 2), special: self.force_special || rng.chance(2, 3), max_map: if thorough { rng.range(1, 6) } else { rng.range(1, 4) }, big: thorough && rng.chance(1, 3), edge_times: true };
+        let o = LayoutOpts { weird: rng.chance(1, 5), related: rng.chance(1, 2), absorbing: rng.chance(1, 3), norepeat: rng.chance(1, 2), special: self.force_special || rng.chance(2, 3), max_map: if thorough { rng.range(1, 6) } else { rng.range(1, 4) }, big: thorough && rng.chance(1, 3), edge_times: true };
         let mut tries = 0;
         loop {
-          let mut l = gen_layout(&mut rng, &o);
+          let mut l = if rng.chance(1, 4) { gen_motif_layout(&mut rng, &o) } else { gen_layout(&mut rng, &o) };
           if self.force_special && !l.mappings.iter().any(|m| matches!(m.repeat, Repeat::Special { .. })) && !l.mappings.is_empty() {
             // make sure at least one mapping repeats specially; its repeat keys may overlap keys that can be held
             let i = rng.below(l.mappings.len());
